@@ -100,7 +100,7 @@ def rewrite(rnd, lines):
                     break
                 p = rnd.choice(pos)
                 last = parts.pop()
-                parts += [last[:p] + ' \\' + rnd.choice(['', ' ', '  ']), rnd.choice(['', '    ', '\t']) + last[p + 1:]]
+                parts += [last[:p] + rnd.choice([' \\', '\\', '  \\']) + rnd.choice(['', ' ', '  ']), rnd.choice(['', '    ', '\t']) + last[p + 1:]]
         for k, prt in enumerate(parts):
             if k and do_blank and rnd.random() < 0.3:
                 out.append(rnd.choice(['', '# inside a continued line', '   ']))
